@@ -1,13 +1,13 @@
 (* C02 — every alignment format round-trips losslessly through writer and parser.
-   Theorem for the modelled FASTA writer/parser; other formats are judged per
-   generated alignment by Corr/C02.v. *)
-From Coq Require Import List Arith Bool.
+   Theorems for the modelled FASTA and Clustal writers/parsers and for the Phylip / Nexus writers against reference
+   readers; the other formats are judged per generated alignment by Corr/C02.v. *)
+From Coq Require Import List Arith Bool ZArith.
 From Coq.Strings Require Import Byte.
 Import ListNotations.
 From GA.Model Require Import Fasta.
 From GA.Proofs Require Import FastaProofs.
-From GA.Model Require Phylip Nexus.
-From GA.Proofs Require PhylipProofs NexusProofs.
+From GA.Model Require Phylip Nexus Clustal ClustalParse.
+From GA.Proofs Require PhylipProofs NexusProofs ClustalRoundtrip.
 
 (* for every wrap width and every representable alignment, parsing what the
    writer wrote gives the alignment back: same names, same order, same residues *)
@@ -38,6 +38,27 @@ Theorem C02_nexus_roundtrip :
   forall protein a, Forall NexusProofs.good_nrow a -> Nexus.read (Nexus.write protein a) = a.
 Proof. exact NexusProofs.nexus_roundtrip. Qed.
 Print Assumptions C02_nexus_roundtrip.
+
+(* Clustal, through the CODE MODELS of both sides (Model/Clustal.v: WriteAlignment with its blocks of 50 columns,
+   padded names, cumulative counts and conservation lines; Model/ClustalParse.v: the lexer and the block parser, tied to
+   io/clustal on every run by Corr/C03.v): parsing what the writer wrote gives the rows back, for every alphabet and
+   every alignment of rows of one positive length (below 2^63) whose names and residues are plain bytes - no blank,
+   tab, line end or NUL, residues not digits - and any number of blocks *)
+Theorem C02_clustal_roundtrip :
+  forall alphabet a L,
+  a <> [] -> 0 < L -> (BinInt.Z.lt (BinInt.Z.of_nat L) 9223372036854775808%Z) ->
+  (forall r, In r a -> ClustalRoundtrip.word (fst r) /\ length (snd r) = L /\
+                       forallb ClustalRoundtrip.resb (snd r) = true) ->
+  ClustalParse.parse (Clustal.write alphabet a) = ClustalParse.ROk a.
+Proof. exact ClustalRoundtrip.clustal_roundtrip. Qed.
+Print Assumptions C02_clustal_roundtrip.
+
+(* non-vacuity: three blocks *)
+Example C02_clustal_nonvacuous :
+  let s := repeat x41 60 ++ repeat x43 50 ++ [x47; x2d] in
+  let a := [([x73; x31], s); ([x43; x4c; x55; x53; x54; x41; x4c], s); ([x31; x32], repeat x2d 112)] in
+  ClustalParse.parse (Clustal.write 1%Z a) = ClustalParse.ROk a.
+Proof. vm_compute. reflexivity. Qed.
 
 Definition C02_all_formats_statement : Prop :=
   forall (writef : list row -> list byte) (parsef : list byte -> res) (repr : list row -> bool) a,
